@@ -258,7 +258,27 @@ def run(ctx):
     ctx.require(b is not None and d is not None, "open-ended slice in block shift")
     ctx.ob("R-LIN", "C01.4", fi, "block shift: destination and source slices have equal length", lin_eq(lin_sub(b, a), lin_sub(d, c)), f"`{src(sl)}`", node=sl)
     ctx.ob("R-LIN", "C01.4", fi, "block shift: moves elements down by exactly one starting from slot 0 (drops the minimum)", lin_eq(a, linear(zero)) and lin_eq(lin_sub(c, a), linear(ast.Constant(1))), f"`{src(sl)}`", node=sl)
-    ctx.ob("R-LIN", "C01.4", fi, "block shift: source slice ends at the searchsorted index", lin_eq(d, {ivar: 1}), f"`{src(sl)}`", node=sl)
+    # the local may hold the searchsorted result itself or a shifted copy of it (`position = searchsorted(..) - 1`):
+    # express the bound in terms of the raw result S
+    import copy as _copy01
+
+    class _S(ast.NodeTransformer):
+        def visit_Call(self, n_):
+            return ast.Name(id="S__", ctx=ast.Load()) if n_ is scall_c else self.generic_visit(n_)
+
+    sst_c = _copy01.deepcopy(sst)
+    scall_c = next(c_ for c_ in ast.walk(sst_c.value) if isinstance(c_, ast.Call) and call_name(c_) in ("np.searchsorted", "numpy.searchsorted"))
+    try:
+        ivar_def = linear(_S().visit(sst_c.value)) if sst_c.value is not scall_c else {"S__": 1}
+    except Exception:
+        ivar_def = None
+    if ivar_def is None:
+        raise AnalysisError("insert_live_point: the searchsorted result is bound through a non-linear expression: ANALYSIS-INCOMPLETE")
+    d_s = {k_: v_ for k_, v_ in d.items() if k_ != ivar}
+    for k_, v_ in ivar_def.items():
+        d_s[k_] = d_s.get(k_, 0) + v_ * d.get(ivar, 0)
+    d_s = {k_: v_ for k_, v_ in d_s.items() if v_ != 0}
+    ctx.ob("R-LIN", "C01.4", fi, "block shift: source slice ends at the searchsorted index", lin_eq(d_s, {"S__": 1}), f"`{src(sl)}`", node=sl)
     it = item_st[0]
     k = linear(it.targets[0].slice)
     ctx.ob("R-LIN", "C01.4", fi, "new point stored at the slot vacated by the shift (end of the destination slice)", lin_eq(k, b), f"`{src(it)}`", node=it)
